@@ -311,7 +311,8 @@ class Rule(NamedBox):
         super().__post_init__()
         self.params = self.params or ()
         self.kwparams = self.kwparams or {}
-        self.decorators = self.decorators or []
+        # NOTE: a plain list (the parser hands over a closedlist, whose repr in model source has no brackets)
+        self.decorators = list(self.decorators or [])
 
         # pyrefly: ignore [unnecessary-type-conversion]
         self.is_name = bool(self.is_name) or 'name' in self.decorators
